@@ -111,6 +111,8 @@ func corpus() [][]txPlan {
 		one(call(0, 15, try(L(call(1, 15, xfer(2, 0, 15, L(put(1, 1))), throw())), L(notify(1)), nil))),
 		one(call(0, 15, try(L(xfer(1, 0, 15, L(throw()))), L(notify(1)), nil))),
 		one(call(0, 15, try(L(xfer(1, 0, 15, L(try(L(throw()), L(put(1, 5)), nil)))), L(notify(1)), nil))),
+		// a transfer to a plain account inside a finally block that runs for an exception (raw events of a FAULT)
+		one(call(2, 15, try(L(try(L(throw()), nil, L(xfer(7, 0, 15, nil), xfer(1, 0, 15, nil)))), L(throw()), L(put(3, 4))))),
 		// committee-signed Policy setter inside a rolled-back callee, and inside a committed one
 		one(call(0, 15, try(L(call(1, 15, setFee(777, 15), throw())), L(notify(1)), nil)), call(2, 15, setFee(555, 15))),
 		one(call(0, 15, setFee(444, 15), abort())),
